@@ -547,6 +547,19 @@ def _clauses(s: str) -> List[str]:
     return re.findall(r'"([^"]*)"', s)
 
 
+def _rejects(out: str, n: int, what: str) -> List[Tuple[int, int, List[str]]]:
+    """Parse the verdict lines of a Trace_* run (TLC wraps long tuples over several lines); every
+    trace must have an ACCEPT or at least one REJECT."""
+    acc = {int(m.group(1)) for m in re.finditer(r'<<\s*"ACCEPT",\s*(\d+)\s*>>', out)}
+    rej = [(int(m.group(1)), int(m.group(2)), re.findall(r'"([^"]*)"', m.group(3)))
+           for m in re.finditer(r'<<\s*"REJECT",\s*(\d+),\s*(\d+),\s*\{([^}]*)\}\s*>>', out)]
+    if acc & {t for t, _, _ in rej} or len(acc | {t for t, _, _ in rej}) != n:
+        raise MachineryError(f"{what}: verdicts for {len(acc | {t for t, _, _ in rej})} of {n} traces\n"
+                             + "\n".join(out.splitlines()[-30:]))
+    return rej
+
+
+
 def validate_sessions(chk: Check, n: int, salt: int = 0) -> None:
     rnd = random.Random(chk.seed * 7919 + 17 + salt)
     w = workdir("c17tr")
@@ -562,15 +575,9 @@ def validate_sessions(chk: Check, n: int, salt: int = 0) -> None:
                                                                    "tlc_tail": r.out.splitlines()[-30:]})
         return
     tlc.require_ok(r, "Trace_C17")
-    tlc.verdicts(r, len(traces), "Trace_C17")      # totality: every session got a verdict
     nev = 0
-    for line in r.out.splitlines():
-        m = re.match(r'<<"REJECT", (\d+), (\d+), (.*)>>', line)
-        if not m:
-            continue
-        t = traces[int(m.group(1)) - 1]
-        at = int(m.group(2))
-        clauses = _clauses(m.group(3))
+    for tno, at, clauses in _rejects(r.out, len(traces), "Trace_C17"):
+        t = traces[tno - 1]
         if "bad_case" in clauses:
             raise MachineryError(f"Trace_C17: generator produced a configuration outside the model: {t['cfg']}")
         case = {"kind": "session", "nroots": t["nroots"], "cfg": t["cfg"],
@@ -830,9 +837,9 @@ def replay(path: str) -> int:
         tlc.write_ndjson(w / "s.ndjson", [{"id": 1, "nroots": case["nroots"], "cfg": case["cfg"], "events": evs}])
         (w / "t.cfg").write_text("SPECIFICATION TrSpec\nINVARIANT TraceTheorems\n")
         r = tlc.require_ok(tlc.run("Trace_C17", str(w / "t.cfg"), env={"IN": str(w / "s.ndjson")}, workers=1), "Trace_C17")
-        rej = [l for l in r.out.splitlines() if l.startswith('<<"REJECT"')]
-        print(json.dumps({"event": evs[-1], "verdict": rej or "ACCEPT"}, indent=1))
-        return 1 if any(not c.startswith("dev:") for l in rej for c in _clauses(l) if c != "REJECT") else 0
+        rej = _rejects(r.out, 1, "Trace_C17")
+        print(json.dumps({"event": evs[-1], "verdict": [c for _, _, cl in rej for c in cl] or "ACCEPT"}, indent=1))
+        return 1 if any(not c.startswith("dev:") for _, _, cl in rej for c in cl) else 0
     else:
         print("unknown case kind")
         return 2
